@@ -9,7 +9,7 @@ import numpy as np
 from harness import common as C
 from harness import fd
 
-IMPORTS = "From FDAV Require Import Base.Num Base.Vec Base.Cmp Model.Basis Tie.C18."
+IMPORTS = "From FDAV Require Import Base.Num Base.Vec Base.Cmp Model.Basis Model.Simpson Tie.C18."
 RULE = ("_basis_bsplines for degree 1..5 x n_functions degree+1..15 (quick: a stratified subset; thorough: all, up to 40) on sorted "
         "non-uniform dyadic grids containing both domain end points, several domains, vs the exact Cox-de Boor model in Q (tolerance "
         "1e-9*n_segments^degree because the code's truncated-power formula cancels); _basis_legendre vs Bonnet's recurrence; Basis(...) "
@@ -105,6 +105,10 @@ def run(rep, props, replay=None):
             nn = simpson(raw * raw, x=gg)
             if np.all(nn > 1e-12):
                 badn = []
+                # exact: every normalised function has squared Simpson norm 1 under the model of the rule
+                t = runq.add("forallb (fun f => qclose " + C.qlit(1e-9) + f" (simpson opsQ {C.qlist(gg)} (vmul opsQ f f)) 1) {C.qmat(nor)}")
+                todo.append((t, "normalised basis functions have unit Simpson norm (exact model of the rule)",
+                             ("basis-norm-exact", f1, gg.tobytes()), {"family": f1, "n_functions": n1, "grid": gname}, True))
                 if np.max(np.abs(simpson(nor * nor, x=gg) - 1.0)) > 1e-9:
                     badn.append("is_normalized=True does not give unit (Simpson) norms")
                 if np.max(np.abs(nor - raw / np.sqrt(nn)[:, None])) > 1e-9 * max(1.0, float(np.max(np.abs(nor)))):
